@@ -111,7 +111,7 @@ def run(ctx):
             s0 = Slice(F, mb).operand(t["args"][0])
             s1 = Slice(F, mb).operand(t["args"][1])
             # arg0: counter initialised to const 1 and incremented by const 1 only
-            ctx.check("C01-c", "%s#is_majority#granted" % fkey(bv), set(s0.consts()) <= {"1"} and ("binop", "AddWithOverflow") in s0.sources or ("binop", "Add") in s0.sources,
+            ctx.check("C01-c", "%s#is_majority#granted" % fkey(bv), set(s0.consts()) <= {"1"} and (("binop", "AddWithOverflow") in s0.sources or ("binop", "Add") in s0.sources),
                       "granted-vote counter = 1 (self) + increments by 1", "granted-vote counter has unexpected provenance: %s" % sorted(s0.sources)[:8], loc(mb, bi))
             ctx.check("C01-c", "%s#is_majority#required" % fkey(bv), s1.has_field("VoteResult", "peer_ids") and "1" in s1.consts() and not s1.has_field("VoteResult", "responses"),
                       "required = peer_ids.len() + 1 (all voters the transport counted, plus self)",
@@ -255,7 +255,7 @@ def run(ctx):
             continue
         mb = F.main_body(lf)
         ups = calls_matching(mb, r"RaftRoleState::update_current_term$")
-        ctx.floor("C01-f", len(ups), 1, "update_current_term in LeaderState::%s" % fname)
+        ctx.floor("C01-f", len(ups), 2, "update_current_term in LeaderState::%s" % fname)
         sbf = [bi for bi, _ in calls_matching(mb, r"LeaderState::send_become_follower_event$")]
         sbf += [bi for (bi, si, st) in agg_sites(mb, "InternalEvent", "BecomeFollower")]
         for n, (bi, t) in enumerate(ups):
